@@ -252,7 +252,10 @@ class C10(scen.WorldProp):
             if isinstance(ev[2], dict) and ev[2].get("m") == "size_change":
                 shrunk = shrunk or ev[2]["size"] < cur      # (a smaller tower leaves holes in the line: pauses by design)
                 cur = ev[2]["size"]
-        if (not req["silent"] or sc["rhythm"]["kind"] == "regression") and not shrunk:
+        # (with an inertia below 1 and humans in the band the fitted line may stretch - slow ringing, by design: the
+        # clause is for a line that nothing bends, inertia 1 or Wheatley alone)
+        fixed_line = scen.b2f(sc["rhythm"].get("inertia", scen.f2b(1.0))) == 1.0 or not req["humans"]
+        if (not req["silent"] or sc["rhythm"]["kind"] == "regression") and not shrunk and fixed_line:
             for a, b in zip(strikes, strikes[1:]):
                 if b - a > 2.5 and not any(t <= b <= t + 4.5 for t in look_tos):   # (a touch opens 3 s after its Look To)
                     return (f"a silence of {b - a:.2f} s in mid-touch (from {a - req['t0']:.2f} s after the first Look To), "
